@@ -156,6 +156,7 @@ func (m *Machine) RunPath(item WorkItem, entry *ssa.Function, args []value, emit
 	m.ndLog = nil
 	m.obsLog = nil
 	m.preempts = 0
+	m.timers = nil
 	m.mapOrderOn = m.opts.MapOrder
 	m.mapBudget = -1
 	m.schedFixed = false
